@@ -53,7 +53,8 @@ EquivWhy(e) ==
 
 \* stop status per the model: STP executed (post.stp) -- an interpreter that was stopped stays stopped
 Why(e) ==
-  (IF e.pre.E = 0 THEN ModelWhy(e, e.pri, "pri") \cup ModelWhy(e, e.alt, "alt")
+  (IF e.irq THEN {}          \* a step that dispatches an interrupt: accounting and equivalence only
+   ELSE IF e.pre.E = 0 THEN ModelWhy(e, e.pri, "pri") \cup ModelWhy(e, e.alt, "alt")
    ELSE A(~e.pri.panic, "pri_panic") \cup A(~e.alt.panic, "alt_panic"))
   \cup AcctWhy(e, e.pri, "pri") \cup AcctWhy(e, e.alt, "alt")
   \cup EquivWhy(e)
